@@ -55,9 +55,12 @@ const (
 	// advertised nothing then: connecting fails, or - reading the hang-up as "discovery unsupported" - ends on 1.0 if the
 	// client's set has it; in no case is a version outside the configured set adopted.
 	bHangsUp = "hangs-up-on-discovery"
+	// bForeign: a server that also speaks KMIP 2.x (and an ancient 0.9) and lists those versions in front of the common
+	// ones, without regard to what the client offered
+	bForeign = "lists-versions-outside-1.x"
 )
 
-var behaviours = []string{bConformant, bUnsupported, bNotOffered, bUnordered, bEmpty, bLibraryExec, bHangsUp}
+var behaviours = []string{bConformant, bUnsupported, bNotOffered, bUnordered, bEmpty, bLibraryExec, bHangsUp, bForeign}
 
 type c13Case struct {
 	ClientMask int    `json:"client_set_mask"` // bit i = version 1.i
@@ -137,6 +140,8 @@ func (s *negServer) advertised(offered []kmip.ProtocolVersion) []kmip.ProtocolVe
 		return asc
 	case bEmpty:
 		return nil
+	case bForeign:
+		return append([]kmip.ProtocolVersion{{ProtocolVersionMajor: 2, ProtocolVersionMinor: 1}, {ProtocolVersionMajor: 2, ProtocolVersionMinor: 0}}, append(append([]kmip.ProtocolVersion{}, inter...), kmip.ProtocolVersion{ProtocolVersionMajor: 0, ProtocolVersionMinor: 9})...)
 	}
 	return inter
 }
@@ -361,7 +366,7 @@ func c13Run(c c13Case) (sig string, err error) {
 
 func TestC13Negotiation(t *testing.T) {
 	const name = "TestC13Negotiation"
-	rec := evid.New("C13", name, "exhaustive: 31 non-empty client sets x 32 server sets x 7 server behaviours (conformant descending intersection, discovery unsupported, lists versions not offered, unordered list, empty list, hanging up on every discovery request, the library's own BatchExecutor restricted to the set, also after an earlier client with another set has negotiated with the same executor) without enforcement, "+
+	rec := evid.New("C13", name, "exhaustive: 31 non-empty client sets x 32 server sets x 8 server behaviours (conformant descending intersection, discovery unsupported, lists versions not offered, unordered list, empty list, hanging up on every discovery request, listing 2.1, 2.0 and 0.9 around the common versions, the library's own BatchExecutor restricted to the set, also after an earlier client with another set has negotiated with the same executor) without enforcement, "+
 		"plus the same client set handed over through up to five other option layouts (descending, one WithKmipVersions option per version, two halves, highest first with a duplicate, rotated) against the conformant, unordered and library servers, plus clients with default options (no version option at all) against every server, plus clients created with DialCluster against the conformant, discovery-less and library servers, plus 31 x 32 x 5 enforced versions against the conformant server (the EnforceVersion option before or after the version-set options, also with every option layout); each followed by two requests, a batch containing a Discover Versions item, and a clone; oracle: pure function of the configuration (highest common version / fallback to 1.0 / failure); "+
 		"non-trivial = the intersection has >= 2 elements, or the server lists a version outside the client's set, or the list is unordered; distinct by case").Attach(t)
 	rec.Exhaustive(true)
@@ -382,7 +387,7 @@ func TestC13Negotiation(t *testing.T) {
 				inter++
 			}
 		}
-		nt := inter >= 2 || (c.Behaviour == bNotOffered && c.ServerMask&^c.ClientMask != 0) || c.Behaviour == bUnordered
+		nt := inter >= 2 || (c.Behaviour == bNotOffered && c.ServerMask&^c.ClientMask != 0) || c.Behaviour == bUnordered || c.Behaviour == bForeign
 		key, _ := json.Marshal(c)
 		rec.Case(nt, key, "behaviour="+c.Behaviour)
 		if nt && (c.ClientMask*37+c.ServerMask)%997 == 3 {
